@@ -11,6 +11,7 @@ import KadDHT.Driver.C01
 import KadDHT.Driver.C01v
 import KadDHT.Driver.C02v
 import KadDHT.Driver.C03
+import KadDHT.Driver.C04
 open KadDHT.Driver
 
 def main (args : List String) : IO UInt32 := do
@@ -18,6 +19,8 @@ def main (args : List String) : IO UInt32 := do
   | ["C18"] => runPure C18.handle; return 0
   | ["C18v"] => runPure C18v.handle; return 0
   | ["C19"] => runLoop C19.step {}; return 0
+  | ["C04v"] => runLoop C04.verdict {}; return 0
+  | ["C04"] => runLoop C04.step {}; return 0
   | ["C03"] => runLoop C03.step (); return 0
   | ["C03v"] => runLoop C03.verdict (); return 0
   | ["C02v"] => runLoop C02v.step {}; return 0
